@@ -89,7 +89,8 @@ class CompressionHandler:
         Accept-Encoding: compress;q=0.5, gzip;q=1.0
         Accept-Encoding: gzip;q=1.0, identity; q=0.5, *;q=0
 
-        returns sorted list of compression algorithms by priority
+        returns sorted list of compression algorithms by priority.
+        Algorithms with a quality value that is not greater than zero ("q=0": not acceptable) are not returned.
         """
         # for now work with standard python containers
         # if performance becomes an issue could be done within one loop
@@ -101,7 +102,8 @@ class CompressionHandler:
                 with contextlib.suppress(ValueError, IndexError):
                     parsed_headers[alg_name] = float(alg[1].split("=")[1])
 
-        return [pair[0] for pair in sorted(parsed_headers.items(), key=lambda kv: kv[1], reverse=True)]
+        accepted = [pair for pair in parsed_headers.items() if pair[1] > 0]
+        return [pair[0] for pair in sorted(accepted, key=lambda kv: kv[1], reverse=True)]
 
 
 class GzipCompressionHandler(AbstractDataCompressor):
